@@ -141,15 +141,15 @@ impl FileSystem for MemoryFS {
     fn read_dir(&self, path: &str) -> VfsResult<Box<dyn Iterator<Item = String> + Send>> {
         let prefix = format!("{}/", path);
         let handle = self.handle.read().unwrap();
-        let mut found_directory = false;
+        let directory = handle.files.get(path).ok_or(VfsErrorKind::FileNotFound)?;
+        if directory.file_type != VfsFileType::Directory {
+            return Err(VfsErrorKind::Other("Not a directory".into()).into());
+        }
         #[allow(clippy::needless_collect)] // need collect to satisfy lifetime requirements
         let entries: Vec<_> = handle
             .files
             .iter()
             .filter_map(|(candidate_path, _)| {
-                if candidate_path == path {
-                    found_directory = true;
-                }
                 if candidate_path.starts_with(&prefix) {
                     let rest = &candidate_path[prefix.len()..];
                     if !rest.contains('/') {
@@ -159,9 +159,6 @@ impl FileSystem for MemoryFS {
                 None
             })
             .collect();
-        if !found_directory {
-            return Err(VfsErrorKind::FileNotFound.into());
-        }
         Ok(Box::new(entries.into_iter()))
     }
 
